@@ -58,6 +58,7 @@ def main(argv):
         sanitize.stop_coverage()
         anchors = getattr(mod, 'ANCHORS', [])
         res['anchors'] = sanitize.coverage_report(anchors)
+        res['files_executed'] = sanitize.files_executed()
         if shard == 0:
             res['anchor_lines'] = sanitize.anchor_total_lines(anchors)
     res.update(ctx.dump())
